@@ -212,6 +212,17 @@ def _round(case):
             if ok2:
                 c.true("q!=-q", e is False or e == False, "q != -q gave %r" % (e,))  # noqa
             c.eq("R(-q)=R(q)", np.asarray(qn.R, dtype=float), np.asarray(q.R, dtype=float), 1e-12)
+        # axis-angle extraction describes the same rotation for both representatives of the double cover
+        for nm_, qq_ in (("q", q), ("-q", L.UnitQuaternion([float(-x) for x in v]))):
+            okv, av = c.lib(nm_ + ".angvec", qq_.angvec)
+            if okv:
+                try:
+                    th_, ax_ = float(av[0]), np.asarray(av[1], dtype=float)
+                    Rb = refs.rodrigues(ax_, th_) if float(np.linalg.norm(ax_)) > 0 else np.eye(3)
+                except Exception as e:  # noqa
+                    c.fail(nm_ + ".angvec/fields", "angvec returned %r (%s)" % (av, e))
+                else:
+                    c.eq(nm_ + ".angvec/same_rotation", Rb, TX[:3, :3], TOL)
         # the unary minus gives that antipodal representative: a UnitQuaternion with negated components, the same rotation
         ok, qm = c.lib("-q", lambda: -q)
         if ok and c.true("-q/type", type(qm) is L.UnitQuaternion and len(qm) == 1, "-q is %s" % type(qm).__name__):
